@@ -379,6 +379,8 @@ class FixedOpts:
         self.lit_cross = 50      # percent: let literals cross column 72 when wrap == 72
         self.lit_pad = 0         # percent: pad before a literal so that it straddles column 72
         self.trail_blanks = 0    # percent of physical lines that get 1-8 trailing blanks (blank lines: blanks only)
+        self.allow_amp_end = False   # only when the caller sets the source form explicitly (a line ending in '&'
+        #                              makes the auto-detector choose free form)
         self.excl = set()
         self.names = None
         for k, v in kw.items():
@@ -451,7 +453,7 @@ def fixed_layout(flat, rnd, opts):
                 if crossing and "no_blank_at_col72" in opts.excl and (gap + txt)[72 - len(cur) - 1] == " ":
                     lay.excluded["no_blank_at_col72"] = lay.excluded.get("no_blank_at_col72", 0) + 1
                     crossing = False
-                if crossing and (cur + (gap + txt)[:72 - len(cur)]).rstrip().endswith("&"):
+                if crossing and not opts.allow_amp_end and (cur + (gap + txt)[:72 - len(cur)]).rstrip().endswith("&"):
                     # a physical line ending in '&' makes the source look like free form: not generated
                     lay.excluded["no_fixed_line_ending_in_amp"] = lay.excluded.get("no_fixed_line_ending_in_amp", 0) + 1
                     crossing = False
